@@ -194,7 +194,63 @@ def h_web_roundtrip(value: str) -> bool:
     return run(body_web_roundtrip, value)
 
 
-_B = {"quick": {"vlen": 2, "wlen": 2}, "thorough": {"vlen": 4, "wlen": 3}}
+CAL2 = "/user/calendars/cal2"
+VALS = ["Home", "Work"]
+COLS = ["#00ff00", "#0000ff80"]
+
+
+def body_history(steps, backend_git):
+    """A history of set / remove steps over TWO calendars whose metadata files start out byte-identical (same
+    blob id): every PROPFIND of both collections equals a model dict, also after a restart."""
+    import xandikos.web as Wb
+    backend = "git" if backend_git else "file"
+    w = mweb.fresh_world({"a.ics": b"xa"}, {}, cfg=backend)
+    if backend == "git":
+        mstore.install_state("tree", mweb.ROOT + CAL2, {"a.ics": b"xa"})
+        mweb.set_type(mweb.ROOT + CAL2, "calendar")
+    else:
+        mstore.install_state("tree", mweb.ROOT + CAL2, {"a.ics": b"xa"}, with_config=b"[DEFAULT]\ntype = calendar\n\n")
+    app = mweb.make_app()
+    cols = [mweb.CAL, CAL2]
+    model = [{"displayname": None, "color": None}, {"displayname": None, "color": None}]
+
+    def check(app_):
+        for i, c in enumerate(cols):
+            dn = _propfind(app_, c + "/", DN)
+            want = model[i]["displayname"] if model[i]["displayname"] is not None else c.rsplit("/", 1)[1]
+            if dn != ("200", want):
+                return False
+            col = _propfind(app_, c + "/", PROPNAMES["color"])
+            if model[i]["color"] is None:
+                if col[0] != "404":
+                    return False
+            elif col != ("200", model[i]["color"]):
+                return False
+        return True
+
+    for st in steps:
+        ci, prop, vi, remove = st % 2, (st // 2) % 2, (st // 4) % 2, (st // 8) % 2
+        pname = "displayname" if prop == 0 else "color"
+        val = (VALS if prop == 0 else COLS)[vi]
+        code = _proppatch(app, cols[ci] + "/", PROPNAMES[pname], val, remove=bool(remove))
+        if code == "200":
+            model[ci][pname] = None if remove else val
+        if not check(app):
+            return (False, "after-step")
+    Wb.open_store_from_path.cache_clear()
+    ok = check(mweb.make_app())
+    return (ok, "history:%d" % len(steps))
+
+
+def h_history(steps: list[int], backend_git: bool) -> bool:
+    """
+    pre: len(steps) <= ctx.b.nsteps and all(0 <= s < 16 for s in steps)
+    post: _
+    """
+    return run(body_history, steps, backend_git)
+
+
+_B = {"quick": {"vlen": 2, "wlen": 2, "nsteps": 3}, "thorough": {"vlen": 4, "wlen": 3, "nsteps": 4}}
 _WEB_PARTS_Q = [("file", "displayname"), ("git", "displayname"), ("file", "comment"), ("git", "comment"),
                 ("file", "ab-description"), ("git", "ab-description")]
 _FMT_PARTS = [("file", "color"), ("git", "color"), ("file", "order"), ("git", "order"), ("file", "ab-color"),
@@ -221,6 +277,13 @@ HARNESSES = [
                      "xandikos.webdav.CommentProperty.set_value",
                      "xandikos.carddav.AddressbookDescriptionProperty.set_value",
                      "xandikos.web.StoreBasedCollection.set_displayname"]),
+    Harness("history", h_history, body_history, classes=["history:3", "history:1"], bounds=_B,
+            budget={"quick": 100, "thorough": 600},
+            describe="symbolic history of <= 3/4 set / remove steps (displayname, colour; two values each) over two "
+                     "calendars with byte-identical metadata files: every PROPFIND of both == model, also after restart",
+            encodes=["xandikos.webdav.ProppatchMethod.handle", "xandikos.webdav.apply_modify_prop",
+                     "xandikos.store.git.GitStore.config", "xandikos.store.config.FileBasedCollectionMetadata._save",
+                     "xandikos.store.git.RepoCollectionMetadata._write_config", "xandikos.web.open_store_from_path"]),
     Harness("web_formatted", h_web_roundtrip, body_web_roundtrip, classes=[("roundtrip", ("file", "order"))],
             parts={"quick": _FMT_PARTS}, bounds={"quick": {"wlen": 8}, "thorough": {"wlen": 8}},
             budget={"quick": 60, "thorough": 300},
